@@ -9,6 +9,9 @@ SOURCE_FNS = (
     "jxl_coding::DecoderInner::read_varint_with_multiplier_clustered", "jxl_coding::DecoderInner::read_varint_with_multiplier_clustered_lz77",
     "jxl_coding::DecoderInner::read_uint_prefilled",
 )
+# integers assembled from input bytes (ICC tag tables, box headers, Exif offsets): any u32 the file's author likes
+BYTE_SOURCES = ("core::num::<impl u32>::from_be_bytes", "core::num::<impl u32>::from_le_bytes",
+                "core::num::<impl i32>::from_be_bytes", "core::num::<impl i32>::from_le_bytes")
 UNPACK_FNS = ("jxl_bitstream::unpack_signed", "jxl_modular::sample::Sealed::unpack_signed_u32", "jxl_bitstream::unpack_signed_u64")
 W32 = {"u32", "i32"}
 ORDER_OPS = {"Lt", "Le", "Gt", "Ge"}
@@ -48,7 +51,7 @@ def analyse(fn, extra_sources=(), raw_fields=(), adts=None):
     n_src = 0
     for b, t in fn.calls():
         c = callee(t)
-        if c and (c["fn"] in SOURCE_FNS or c["fn"] in extra_sources or c.get("res") in extra_sources) and len(t[3]) == 1:
+        if c and (c["fn"] in SOURCE_FNS or c["fn"] in BYTE_SOURCES or c["fn"] in extra_sources or c.get("res") in extra_sources) and len(t[3]) == 1:
             n_src += 1
             tainted_roots[t[3][0]] = "%s#%d" % (c["fn"].split("::")[-1], n_src)
     if raw_fields:
@@ -336,7 +339,8 @@ def nonzero_checked(fn, defs, uf, l, b):
 
 def run(ctx, crates):
     rid = "R-RAWINT"
-    ctx.rule(rid, "no value that is directly a hybrid-uint result (read_varint*, unpack_signed* of it, moves/`?`/same-width casts, and "
+    ctx.rule(rid, "no value that is directly a hybrid-uint result or a 32-bit integer assembled from input bytes with from_be_bytes / "
+                  "from_le_bytes (read_varint*, unpack_signed* of it, moves/`?`/same-width casts, and "
                   "results of arithmetic on unbounded ones) reaches, in the same function and without a dominating ordering "
                   "comparison on that value, an overflow-checked +,-,* at 32-bit width, a shift amount, a divisor, a negation or abs(); "
                   "every report is a reachable panic in a checked build because the stream's integer configuration lets the "
